@@ -54,15 +54,17 @@ AtSubEnd(s) == s.err = "" /\ ~s.ret /\ s.pc >= s.plen /\ s.ps # <<>>
 \* the pending cmdEndTagEndScope, which then completes
 ModelStep(s) == IF AtSubEnd(s) THEN EndTail(DoReturn(s), prog[DoReturn(s).pc + 1]) ELSE StepOf(s)
 PcBefore(s) == IF AtSubEnd(s) THEN Top(s.ps).pc ELSE s.pc
+\* a logged register -1 = the harness could not read that internal (renamed / removed by a refactoring): unknown
+Obs(x, y) == x = 0 - 1 \/ x = y
 Agrees(e, s0, s1) ==
     /\ s0.err = "" /\ (AtSubEnd(s0) \/ s0.pc < s0.plen)
-    /\ e[1] = PcBefore(s0)
+    /\ Obs(e[1], PcBefore(s0))
     /\ (e[2] = 0 \/ e[2] = prog[PcBefore(s0) + 1].op)
     /\ (e[2] = 0) = (~AtSubEnd(s0) /\ prog[s0.pc + 1].op = TAL_ENDTAG_ENDSCOPE /\ ExpandsInline(s0))
     /\ s1.err = ""
-    /\ (e[2] # 0 => e[3] = s1.pc /\ e[4] = Len(s1.ss) /\ e[5] = s1.ot /\ e[6] = s1.mf /\ e[7] = s1.mb
-                    /\ e[8] = B2N(s1.tc.on) /\ e[9] = s1.lvd)
-    /\ e[10] = Len(s1.ls) /\ e[11] = Len(s1.rs) /\ e[12] = Len(s1.out) /\ e[13] = Len(s1.ps)
+    /\ (e[2] # 0 => Obs(e[3], s1.pc) /\ Obs(e[4], Len(s1.ss)) /\ Obs(e[5], s1.ot) /\ e[6] = s1.mf /\ e[7] = s1.mb
+                    /\ Obs(e[8], B2N(s1.tc.on)) /\ Obs(e[9], s1.lvd))
+    /\ Obs(e[10], Len(s1.ls)) /\ Obs(e[11], Len(s1.rs)) /\ Obs(e[12], Len(s1.out)) /\ Obs(e[13], Len(s1.ps))
 
 OpEvent ==
     /\ l <= Len(Evs)
